@@ -15,7 +15,10 @@ pub struct C20;
 
 /// chord keys; the last one is punctuation for smart-space
 pub const CHORD_KEYS: [&str; 7] = ["a", "b", "c", "d", "e", "f", "."];
-const OUT_CHARS: [char; 14] = ['a', 'b', 'g', 'h', 'i', 't', 'A', 'G', 'T', ' ', 'o', 'n', 'x', 'B'];
+const OUT_CHARS: [char; 18] = ['a', 'b', 'g', 'h', 'i', 't', 'A', 'G', 'T', ' ', 'o', 'n', 'x', 'B', '!', '?', '®', 'ß'];
+/// characters the configuration tells zippychord how to type (output-character-mappings):
+/// (character, mapping as written, key, shift, altgr)
+const MAPPED: [(char, &str, &str, bool, bool); 4] = [('!', "S-1", "1", true, false), ('?', "S-/", "/", true, false), ('®', "AG-r", "r", false, true), ('ß', "AG-s", "s", false, true)];
 /// keys for the typing that follows: never part of a chord
 const TAIL_KEYS: [&str; 5] = ["x", "y", "z", ";", ","];
 
@@ -38,6 +41,8 @@ pub struct ZCase {
     pub shift: bool,
     /// the shift that is held is the right one
     pub right_shift: bool,
+    /// the user holds AltGr (right alt) while pressing the chords
+    pub altgr: bool,
     /// a character is typed first (and zippychord left to re-enable): erasing too much shows
     pub prefix: bool,
     /// indexes into TAIL_KEYS typed afterwards
@@ -65,8 +70,9 @@ pub fn file_text(c: &ZCase) -> String {
 }
 pub fn cfg_text(c: &ZCase) -> String {
     format!(
-        "(defcfg log-layer-changes no)\n(defsrc a b c d e f x y z . , ; lsft rsft spc)\n(deflayer l0 a b c d e f x y z . , ; lsft rsft spc)\n(defzippy zippy.txt on-first-press-chord-deadline 300 idle-reactivate-time 400 smart-space {})\n",
-        ["none", "add-space-only", "full"][c.smart_space as usize % 3]
+        "(defcfg log-layer-changes no)\n(defsrc a b c d e f x y z . , ; lsft rsft spc ralt)\n(deflayer l0 a b c d e f x y z . , ; lsft rsft spc ralt)\n(defzippy zippy.txt on-first-press-chord-deadline 300 idle-reactivate-time 400 smart-space {}\n  output-character-mappings ({}))\n",
+        ["none", "add-space-only", "full"][c.smart_space as usize % 3],
+        MAPPED.iter().map(|(ch, m, ..)| format!("{ch} {m}")).collect::<Vec<_>>().join(" ")
     )
 }
 
@@ -74,7 +80,7 @@ impl Case for ZCase {
     fn to_json(&self) -> Value {
         json!({"config": cfg_text(self), "zippy_file": file_text(self),
             "entries": self.entries.iter().map(|e| json!([e.chords, e.out])).collect::<Vec<_>>(),
-            "smart_space": self.smart_space, "which": self.which, "orders": self.orders, "gap": self.gap, "shift": self.shift, "right_shift": self.right_shift, "prefix": self.prefix, "tail": self.tail, "scenario": self.scenario})
+            "smart_space": self.smart_space, "which": self.which, "orders": self.orders, "gap": self.gap, "shift": self.shift, "right_shift": self.right_shift, "altgr": self.altgr, "prefix": self.prefix, "tail": self.tail, "scenario": self.scenario})
     }
     fn from_json(v: &Value) -> Option<Self> {
         Some(ZCase {
@@ -94,6 +100,7 @@ impl Case for ZCase {
             gap: v["gap"].as_u64()? as u8,
             shift: v["shift"].as_bool()?,
             right_shift: v["right_shift"].as_bool().unwrap_or(false),
+            altgr: v["altgr"].as_bool().unwrap_or(false),
             prefix: v["prefix"].as_bool().unwrap_or(false),
             tail: v["tail"].as_array()?.iter().filter_map(|x| x.as_u64().map(|y| y as u8)).collect(),
             scenario: v["scenario"].as_u64()? as u8,
@@ -122,11 +129,43 @@ fn perms(n: usize) -> Vec<Vec<usize>> {
     out
 }
 
-/// Replay OS output into a text buffer.
-fn text_of(outs: &[crate::sim::Out]) -> (String, bool) {
+/// The character a key produces with the given modifier state (US-international-like layout:
+/// the mapped characters of MAPPED, upper case letters; every other combination with a
+/// modifier is a character of its own from the private-use area, so that "typed with the
+/// wrong modifier" is always visible).
+fn glyph(base: char, key: u16, shift: bool, altgr: bool) -> char {
+    if base == ' ' {
+        return ' ';
+    }
+    for (ch, _, k, sh, ag) in MAPPED {
+        if code_of(k) == key && sh == shift && ag == altgr {
+            return ch;
+        }
+    }
+    match (shift, altgr) {
+        (false, false) => base,
+        (true, false) if base.is_ascii_lowercase() => base.to_ascii_uppercase(),
+        _ => char::from_u32(0xE000 + key as u32 + if shift { 0x400 } else { 0 } + if altgr { 0x800 } else { 0 }).unwrap(),
+    }
+}
+/// What a character of an expansion looks like when the user's held shift is added to it.
+fn with_shift(ch: char) -> char {
+    for (m, _, k, sh, ag) in MAPPED {
+        if m == ch {
+            let base = k.chars().next().unwrap();
+            return glyph(base, code_of(k), sh || true, ag);
+        }
+    }
+    ch.to_ascii_uppercase()
+}
+
+/// Replay OS output into a text buffer. Returns (text, a shift is down, altgr is down).
+fn text_of(outs: &[crate::sim::Out]) -> (String, bool, bool) {
     let mut text: Vec<char> = vec![];
     let mut shift: BTreeSet<u16> = BTreeSet::new();
+    let mut altgr = false;
     let sh = [code_of("lsft"), code_of("rsft")];
+    let ralt = code_of("ralt");
     let bs = code_of("bspc");
     let spc = code_of("spc");
     let mut table: BTreeMap<u16, char> = BTreeMap::new();
@@ -136,6 +175,7 @@ fn text_of(outs: &[crate::sim::Out]) -> (String, bool) {
     table.insert(code_of("."), '.');
     table.insert(code_of(","), ',');
     table.insert(code_of(";"), ';');
+    table.insert(code_of("/"), '/');
     for o in outs {
         match o.ev {
             OutEv::Down(k) if sh.contains(&k) => {
@@ -144,25 +184,27 @@ fn text_of(outs: &[crate::sim::Out]) -> (String, bool) {
             OutEv::Up(k) if sh.contains(&k) => {
                 shift.remove(&k);
             }
+            OutEv::Down(k) if k == ralt => altgr = true,
+            OutEv::Up(k) if k == ralt => altgr = false,
             OutEv::Down(k) if k == bs => {
                 text.pop();
             }
             OutEv::Down(k) if k == spc => text.push(' '),
             OutEv::Down(k) => {
                 if let Some(ch) = table.get(&k) {
-                    text.push(if shift.is_empty() { *ch } else { ch.to_ascii_uppercase() });
+                    text.push(glyph(*ch, k, !shift.is_empty(), altgr));
                 }
             }
             _ => {}
         }
     }
-    (text.into_iter().collect(), !shift.is_empty())
+    (text.into_iter().collect(), !shift.is_empty(), altgr)
 }
 
 fn capitalize_first(s: &str) -> String {
     let mut cs: Vec<char> = s.chars().collect();
     if let Some(c) = cs.first_mut() {
-        *c = c.to_ascii_uppercase();
+        *c = with_shift(*c);
     }
     cs.into_iter().collect()
 }
@@ -184,6 +226,7 @@ fn judge_case(c: &ZCase) -> Verdict {
     let mut typed_desc: Vec<String> = vec![];
     let lsft = code_of(if c.right_shift { "rsft" } else { "lsft" });
     let mut shift_restored_ok = true;
+    let mut altgr_restored_ok = true;
     let expected: String;
     if c.scenario % 4 == 3 {
         // the chord's keys pressed too slowly: each more than the deadline (300 ms, not the default) after the
@@ -241,6 +284,11 @@ fn judge_case(c: &ZCase) -> Verdict {
             sim.tick_n(5);
             typed_desc.push(if c.right_shift { "d:rsft".into() } else { "d:lsft".into() });
         }
+        if c.altgr {
+            sim.press(code_of("ralt"));
+            sim.tick_n(5);
+            typed_desc.push("d:ralt".into());
+        }
         for (j, m) in entry.chords.iter().enumerate() {
             let keys = mask_keys(*m);
             let ps = perms(keys.len());
@@ -266,10 +314,13 @@ fn judge_case(c: &ZCase) -> Verdict {
                 v.classes.push("late-but-within-the-deadline");
             }
             // shift held by the user is down again after the activation
-            if c.shift {
-                let (_, sh) = text_of(&sim.outs);
-                if !sh {
+            if c.shift || c.altgr {
+                let (_, sh, ag) = text_of(&sim.outs);
+                if c.shift && !sh {
                     shift_restored_ok = false;
+                }
+                if c.altgr && !ag {
+                    altgr_restored_ok = false;
                 }
             }
             for oi in order.iter().rev() {
@@ -278,6 +329,11 @@ fn judge_case(c: &ZCase) -> Verdict {
                 sim.tick_n(2);
             }
             sim.tick_n(10);
+        }
+        if c.altgr {
+            sim.release(code_of("ralt"));
+            typed_desc.push("u:ralt".into());
+            sim.tick_n(5);
         }
         if c.shift {
             sim.release(lsft);
@@ -316,6 +372,15 @@ fn judge_case(c: &ZCase) -> Verdict {
         if c.shift {
             v.classes.push("shift-held");
         }
+        if c.altgr {
+            v.classes.push("altgr-held");
+        }
+        if entry.out.chars().any(|ch| MAPPED.iter().any(|m| m.0 == ch && m.4)) {
+            v.classes.push("altgr-character-in-output");
+        }
+        if entry.out.chars().any(|ch| MAPPED.iter().any(|m| m.0 == ch && m.3)) {
+            v.classes.push("shifted-symbol-in-output");
+        }
         if smart {
             v.classes.push("smart-space-added");
         }
@@ -331,7 +396,7 @@ fn judge_case(c: &ZCase) -> Verdict {
         }
     }
     sim.tick_n(700);
-    let (got, _) = text_of(&sim.outs);
+    let (got, _, _) = text_of(&sim.outs);
     let describe = || format!("{text}--- zippy.txt\n{file}typed: {}\noutput: {}", typed_desc.join(" "), fmt_outs(&sim.outs));
     // F49: a chord of the path that has no output of its own (it only leads to follow-ups) and
     // extends a chord of the same level that has one: the shorter expansion is typed on the way
@@ -359,12 +424,15 @@ fn judge_case(c: &ZCase) -> Verdict {
     }
     if got != expected {
         return Verdict::failed(
-            if c.scenario % 2 == 1 { "zippy:non-chord-typing-altered" } else if followup_superseder { "zippy:wrong-text-left:followup-chord-extends-another-followup-chord" } else if empty_superseder { "zippy:wrong-text-left:outputless-chord-extends-a-chord-with-output" } else if got.len() != expected.len() { "zippy:wrong-number-of-characters-left" } else { "zippy:wrong-text-left" },
+            if c.scenario % 2 == 1 { "zippy:non-chord-typing-altered" } else if followup_superseder { "zippy:wrong-text-left:followup-chord-extends-another-followup-chord" } else if empty_superseder { "zippy:wrong-text-left:outputless-chord-extends-a-chord-with-output" } else if got.chars().count() != expected.chars().count() { "zippy:wrong-number-of-characters-left" } else { "zippy:wrong-text-left" },
             format!("{}\ntext on screen: {got:?}\nexpected      : {expected:?}", describe()),
         );
     }
     if !shift_restored_ok {
         return Verdict::failed("zippy:shift-not-restored", describe());
+    }
+    if !altgr_restored_ok {
+        return Verdict::failed("zippy:altgr-not-restored", describe());
     }
     let mut os = crate::sim::OsState::default();
     for o in &sim.outs {
@@ -373,7 +441,7 @@ fn judge_case(c: &ZCase) -> Verdict {
     if os.anything_down() {
         return Verdict::failed("zippy:key-left-down", format!("{}\nstill down: {:?}", describe(), os.keys.iter().map(|k| out_name(*k)).collect::<Vec<_>>()));
     }
-    v.nontrivial = c.scenario % 2 == 0 && (c.entries.len() >= 2 || c.shift);
+    v.nontrivial = c.scenario % 2 == 0 && (c.entries.len() >= 2 || c.shift || c.altgr);
     v
 }
 
@@ -385,7 +453,7 @@ impl TypedProp for C20 {
     fn info(&self) -> PropInfo {
         PropInfo {
             level: "exploration",
-            rule: "dictionaries: 1-5 entries over chord keys a-f and `.`: a first chord of 2-3 keys, 0-2 follow-up chords of 1-2 keys, outputs of 1-6 characters (lower / upper case letters, space); a third of the entries extend the previous entry's first chord by one key, half of those also extend its output; smart-space none / add-space-only / full; deadline 300 ms and idle-reactivate 400 ms (both not the defaults). History: mostly a character typed first and zippychord left to re-enable (erasing too much shows); optionally the left or the right shift held; every chord of the chosen entry's path pressed in a generated order with gaps of 1-8 ms (or, for the first chord, spread over 200 ms and held for another 200 ms: late but within the deadline, which every activation restarts), released, 10 ms pause; shift released; then 0-3 taps of keys that are in no chord (x y z ; ,). A separate scenario types single chord keys one after the other (never two at once), another presses a chord's keys more than the deadline apart. Oracle: the OS output is replayed into a text buffer (characters with the shift state, space, backspace); the text left must be the entry's expansion (first character capitalised when shift is held), plus the smart space where configured (removed again by punctuation in full mode), plus the characters typed afterwards; sequential typing and too-slow chords must come out as typed; a held shift must be down again after each activation; nothing is left down. Non-trivial: the dictionary has >= 2 entries or shift is held. Distinct: hash of the case.".into(),
+            rule: "dictionaries: 1-5 entries over chord keys a-f and `.`: a first chord of 2-3 keys, 0-2 follow-up chords of 1-2 keys, outputs of 1-6 characters (lower / upper case letters, space, and ! ? ® ß, which output-character-mappings tells zippychord to type as S-1 S-/ AG-r AG-s); a third of the entries extend the previous entry's first chord by one key, half of those also extend its output; smart-space none / add-space-only / full; deadline 300 ms and idle-reactivate 400 ms (both not the defaults). History: mostly a character typed first and zippychord left to re-enable (erasing too much shows); optionally the left or the right shift held, optionally AltGr held as well (one case in five); every chord of the chosen entry's path pressed in a generated order with gaps of 1-8 ms (or, for the first chord, spread over 200 ms and held for another 200 ms: late but within the deadline, which every activation restarts), released, 10 ms pause; shift released; then 0-3 taps of keys that are in no chord (x y z ; ,). A separate scenario types single chord keys one after the other (never two at once), another presses a chord's keys more than the deadline apart. Oracle: the OS output is replayed into a text buffer (characters with the shift and AltGr state - a key typed with a modifier it should not have is a different character -, space, backspace); the text left must be the entry's expansion (first character capitalised when shift is held), plus the smart space where configured (removed again by punctuation in full mode), plus the characters typed afterwards; sequential typing and too-slow chords must come out as typed; a held shift and a held AltGr must be down again after each activation; nothing is left down. Non-trivial: the dictionary has >= 2 entries or shift is held. Distinct: hash of the case.".into(),
             assumptions: vec!["a chord's own line precedes the lines that follow it up (the file format rejects the other order)".into(), "with shift held the first character of the expansion is capitalised (documented behaviour)".into()],
             extra: BTreeMap::new(),
         }
@@ -398,7 +466,7 @@ impl TypedProp for C20 {
             },
             exhaustive: false,
             distinct_by_construction: false,
-            required_classes: vec!["single-chord", "follow-up-chord", "extends-a-shorter-chord", "overlapping-dictionary", "shift-held", "right-shift-held", "smart-space-added", "uppercase-output", "non-chord-typing", "slower-than-the-deadline", "late-but-within-the-deadline"],
+            required_classes: vec!["single-chord", "follow-up-chord", "extends-a-shorter-chord", "overlapping-dictionary", "shift-held", "right-shift-held", "altgr-held", "altgr-character-in-output", "shifted-symbol-in-output", "smart-space-added", "uppercase-output", "non-chord-typing", "slower-than-the-deadline", "late-but-within-the-deadline"],
             hang_secs: 60,
         }
     }
@@ -421,11 +489,12 @@ impl TypedProp for C20 {
             0u8..11,
             any::<bool>(),
             any::<bool>(),
+            prop::bool::weighted(0.2),
             prop::bool::weighted(0.7),
             prop::collection::vec(0u8..5, 0..4),
             prop_oneof![15 => Just(0u8), 3 => Just(1u8), 2 => Just(3u8)],
         )
-            .prop_map(|(raw, smart_space, which, orders, gap, shift, right_shift, prefix, tail, scenario)| {
+            .prop_map(|(raw, smart_space, which, orders, gap, shift, right_shift, altgr, prefix, tail, scenario)| {
                 let mut entries: Vec<ZEntry> = vec![];
                 for (chords, outs, extend) in raw {
                     let mut chords = chords;
@@ -481,6 +550,7 @@ impl TypedProp for C20 {
                     gap,
                     shift,
                     right_shift,
+                    altgr,
                     prefix,
                     tail,
                     scenario,
